@@ -180,7 +180,7 @@ fn threads_check(it: &interp::Interp, k: usize, hist: &[(usize, String, String)]
             s.spawn(move || {
                 interp::install_panic_hook();
                 let n = qs.len();
-                for j in 0..n.min(400) {
+                for j in 0..(6 * n).min(6000) {
                     let idx = (j * (2 * t + 1) + t * 7919) % n;
                     let (_, line, expect) = qs[idx];
                     let got = it_ref.query(line);
